@@ -220,6 +220,7 @@ theorem rp_lvalue (lv : Expr) (h : LvOk env lv) (rest : List Tok) (hn : NoLp res
 
 theorem eos_nl (r : List Tok) : eos (.nl :: r) = some r := rfl
 theorem kw_nl (k : String) : Tok.nl.kw k = false := rfl
+theorem eos_lp (r : List Tok) : eos (.p .lp :: r) = none := rfl
 
 theorem pStmt_set (f : Nat) (X r1 rest : List Tok) (lv v : Expr)
     (h1 : pLvalue env (32 * (X.length + 2)) X = some (lv, .p .eq :: r1))
@@ -331,5 +332,720 @@ theorem pStmt_in (f : Nat) (v : Name) (X r4 rest : List Tok) (l : Expr) (body : 
     pStmt env (f + 1) (kw "repeat" :: kw "with" :: .id v :: kw "in" :: X) = some (.repeatIn (env.resolveVar v) l body, rest) := by
   simp only [kw] at h2 ⊢
   simp [pStmt, h1, h2, eos, kw_p]
+
+/-- names that can head a command line: none of the statement keywords -/
+def cmdName (s : Name) : Bool :=
+  ["set", "put", "if", "repeat", "exit", "tell", "delete", "hilite", "end", "else", "global", "instance", "property", "on", "method"].all
+    fun k => !(Tok.id s).kw k
+
+theorem cmdName_spec (s : Name) (h : cmdName s = true) :
+    (Tok.id s).kw "set" = false ∧ (Tok.id s).kw "put" = false ∧ (Tok.id s).kw "if" = false ∧ (Tok.id s).kw "repeat" = false
+    ∧ (Tok.id s).kw "exit" = false ∧ (Tok.id s).kw "tell" = false ∧ (Tok.id s).kw "delete" = false ∧ (Tok.id s).kw "hilite" = false
+    ∧ (Tok.id s).kw "end" = false ∧ (Tok.id s).kw "else" = false ∧ (Tok.id s).kw "global" = false ∧ (Tok.id s).kw "instance" = false
+    ∧ (Tok.id s).kw "property" = false := by
+  simp [cmdName, List.all] at h
+  simp [h]
+
+theorem pStmt_sound0 (f : Nat) (m : Name) (rest : List Tok) :
+    pStmt env (f + 1) (kw "sound" :: .id m :: .nl :: rest) = some (.call "sound".toList [.sym m], rest) := by
+  have c := cmdName_spec ['s','o','u','n','d'] (by decide)
+  have k : (Tok.id ['s','o','u','n','d']).kw "sound" = true := by decide
+  simp only [kw]
+  simp [pStmt, c, k, eos]
+
+theorem pStmt_sound (f : Nat) (m : Name) (X rest : List Tok) (as : List Expr) (hX : eos X = none)
+    (h : pArgs env (32 * (X.length + 3)) X = some (as, .nl :: rest)) :
+    pStmt env (f + 1) (kw "sound" :: .id m :: X) = some (.call "sound".toList (.sym m :: as), rest) := by
+  have c := cmdName_spec ['s','o','u','n','d'] (by decide)
+  have k : (Tok.id ['s','o','u','n','d']).kw "sound" = true := by decide
+  simp only [kw]
+  simp [pStmt, c, k, hX, h, eos_nl]
+
+theorem pStmt_mcall0 (f : Nat) (s m : Name) (rest : List Tok) (hc : cmdName s = true) (hs : (Tok.id s).kw "sound" = false)
+    (hv : env.isVar s = true) :
+    pStmt env (f + 1) (.id s :: .id m :: .nl :: rest) = some (.mcall (env.resolveVar s) m [], rest) := by
+  have c := cmdName_spec s hc
+  simp [pStmt, c, hs, hv, eos]
+
+theorem pStmt_mcall (f : Nat) (s m : Name) (X rest : List Tok) (as : List Expr) (hc : cmdName s = true)
+    (hs : (Tok.id s).kw "sound" = false) (hv : env.isVar s = true)
+    (h : pArgs env (32 * (X.length + 4)) X = some (as, .nl :: rest)) :
+    pStmt env (f + 1) (.id s :: .id m :: .p .comma :: X) = some (.mcall (env.resolveVar s) m as, rest) := by
+  have c := cmdName_spec s hc
+  simp [pStmt, c, hs, hv, h, eos]
+
+theorem pStmt_call0 (f : Nat) (s : Name) (rest : List Tok) (hc : cmdName s = true) (hs : (Tok.id s).kw "sound" = false)
+    (hv : env.isVar s = false) :
+    pStmt env (f + 1) (.id s :: .nl :: rest) = some (.call s [], rest) := by
+  have c := cmdName_spec s hc
+  simp [pStmt, c, hs, hv, eos]
+
+theorem pStmt_go (f : Nat) (w : Name) (rest : List Tok) (hw : goWord w = true) (hv : env.isVar "go".toList = false) :
+    pStmt env (f + 1) (kw "go" :: .id w :: .nl :: rest) = some (.call "go".toList [.sym w], rest) := by
+  have c := cmdName_spec ['g','o'] (by decide)
+  have k1 : (Tok.id ['g','o']).kw "sound" = false := by decide
+  have k2 : (Tok.id ['g','o']).kw "go" = true := by decide
+  simp only [kw]
+  simp at hv
+  simp [pStmt, c, k1, k2, hv, hw, eos]
+
+/-- `f a, b` where the first argument does not start with a parenthesis -/
+theorem pStmt_call (f : Nat) (s : Name) (t : Tok) (X rest : List Tok) (as : List Expr) (hc : cmdName s = true)
+    (hs : (Tok.id s).kw "sound" = false) (hv : env.isVar s = false) (ht1 : t ≠ .nl) (ht2 : t ≠ .p .lp)
+    (hgo : (Tok.id s).kw "go" = false ∨ ∀ w, t = .id w → goWord w = false)
+    (h : pArgs env (32 * (X.length + 3)) (t :: X) = some (as, .nl :: rest)) :
+    pStmt env (f + 1) (.id s :: t :: X) = some (.call s as, rest) := by
+  have c := cmdName_spec s hc
+  have e : 32 * (X.length + 1 + 2) = 32 * (X.length + 3) := by omega
+  cases t with
+  | nl => exact absurd rfl ht1
+  | id w =>
+    have hg : ((Tok.id s).kw "go" && goWord w) = false := by
+      rcases hgo with hg | hg
+      · simp [hg]
+      · simp [hg w rfl]
+    simp only [Bool.and_eq_false_iff] at hg
+    rcases hg with hg | hg <;> simp [pStmt, c, hs, hv, eos, hg, e, h]
+  | num n => simp [pStmt, c, hs, hv, eos, e, h, kw_num]
+  | flt a b => simp [pStmt, c, hs, hv, eos, e, h, kw_flt]
+  | str a => simp [pStmt, c, hs, hv, eos, e, h, kw_str]
+  | p x =>
+    cases x <;> first | exact absurd rfl ht2 | simp [pStmt, c, hs, hv, eos, e, h, kw_p]
+
+/-! ### auxiliary: argument lists up to the end of the line, heads of printed expressions, fuel -/
+
+/-- tokens a printed expression can start with -/
+def exprHead : Tok → Bool
+  | .num _ | .str _ | .flt _ _ | .id _ | .p .hash | .p .lp | .p .lb | .p .minus => true
+  | _ => false
+
+def headIs (p : Tok → Bool) : List Tok → Bool
+  | [] => false
+  | t :: _ => p t
+
+theorem prE_exprHead (e : Expr) (h : Frag env e) : headIs exprHead (prE e) = true := by
+  cases e with
+  | int n => simp [prE, headIs, exprHead]
+  | str s =>
+    by_cases h0 : s = []
+    · simp [prE, strToks, h0, headIs, exprHead]
+    · cases hc : nameOfConstant s <;> simp [prE, strToks, h0, hc, headIs, exprHead]
+  | float d s => simp [prE, headIs, exprHead]
+  | sym n => simp [prE, headIs, exprHead]
+  | var k n => simp [prE, headIs, exprHead]
+  | un op a => cases op <;> simp [prE, kw, headIs, exprHead]
+  | bin op a b => cases hop : op.isInfix <;> simp [prE, hop, kw, headIs, exprHead]
+  | field a => simp [prE, kw, headIs, exprHead]
+  | call f as => simp [prE, headIs, exprHead]
+  | list as => simp [prE, headIs, exprHead]
+  | me => simp [prE, kw, headIs, exprHead]
+  | mcall o m as =>
+    obtain ⟨⟨s, hs, _⟩, _⟩ : RecvOk env o ∧ FragL env as := h
+    simp [prE, hs, headIs, exprHead]
+  | plist as => cases as <;> simp [prE, headIs, exprHead]
+  | the t k as =>
+    obtain ⟨X, hX⟩ := prThe_head t k as
+    simp [prE, hX, kw, headIs, exprHead]
+  | key n => simp [prE, kw, headIs, exprHead]
+  | movie n => simp [prE, kw, headIs, exprHead]
+  | oprop n o => simp [prE, kw, headIs, exprHead]
+  | chunk c a b d =>
+    cases b with
+    | int n => cases n <;> simp [prE, kw, headIs, exprHead]
+    | _ => simp [prE, kw, headIs, exprHead]
+
+/-- an identifier that is not one of the five operator words is no binary operator -/
+theorem binOfTok_word (s : Name) (h1 : (Tok.id s).kw "contains" = false) (h2 : (Tok.id s).kw "starts" = false)
+    (h3 : (Tok.id s).kw "mod" = false) (h4 : (Tok.id s).kw "and" = false) (h5 : (Tok.id s).kw "or" = false) :
+    ∀ l, binOfTok l (.id s) = none := by
+  intro l
+  match l with
+  | 0 => rfl
+  | 1 => rfl
+  | 2 => simp [binOfTok, h1, h2]
+  | 3 => rfl
+  | 4 => simp [binOfTok, h3, h4, h5]
+  | n + 5 => simp [binOfTok]
+
+theorem wordTok_kw (k : String) (h : ((kw k).kw "contains" || (kw k).kw "starts" || (kw k).kw "mod" || (kw k).kw "and" || (kw k).kw "or") = false) :
+    WordTok (kw k) := by
+  simp only [Bool.or_eq_false_iff] at h
+  exact ⟨binOfTok_word _ h.1.1.1.1 h.1.1.1.2 h.1.1.2 h.1.2 h.2, by simp [kw]⟩
+
+/-- `, a, b` up to any closing token that is not a comma -/
+theorem rp_more_c : ∀ (es : List Expr), FragL env es → ∀ (c : Tok), Closer c → c ≠ .p .comma → ∀ (rest : List Tok) (F : Nat),
+    fuelOfL es + 1 ≤ F → pMore env F (prTail es ++ c :: rest) = some (es, c :: rest)
+  | [], _, c, _, hc2, rest, F, hF => by
+    obtain ⟨f, rfl⟩ : ∃ f, F = f + 1 := ⟨F - 1, by omega⟩
+    simp only [prTail, List.nil_append]
+    cases c with
+    | p x => cases x <;> first | exact absurd rfl hc2 | simp [pMore]
+    | _ => simp [pMore]
+  | e :: es, h, c, hc, hc2, rest, F, hF => by
+    obtain ⟨he, hes⟩ : Frag env e ∧ FragL env es := h
+    obtain ⟨f, rfl⟩ : ∃ f, F = f + 1 := ⟨F - 1, by omega⟩
+    have hE : pLevel env f 1 (prE e ++ (prTail es ++ c :: rest)) = some (e, prTail es ++ c :: rest) := by
+      cases es with
+      | nil =>
+        exact level_of_e5 env e _ (fuelOf e) (fun F' hF' => rp_e5 env e he _ (nolp_closer _ _ hc) F' hF') 1 (by omega) (by omega)
+          (follow_closer _ _ _ hc) f (by simp [fuelOfL] at hF; omega)
+      | cons e2 es2 =>
+        exact level_of_e5 env e _ (fuelOf e) (fun F' hF' => rp_e5 env e he _ (nolp_closer _ _ (Or.inr (Or.inl rfl))) F' hF') 1 (by omega) (by omega)
+          (follow_closer _ _ _ (Or.inr (Or.inl rfl))) f (by simp [fuelOfL] at hF; omega)
+    have hM := rp_more_c es hes c hc hc2 rest f (by simp [fuelOfL] at hF; omega)
+    simp only [prTail, List.cons_append, List.append_assoc, pMore, hE, hM]
+
+/-- `a, b, c` up to any closing token that is not a comma -/
+theorem rp_args_c (e : Expr) (es : List Expr) (he : Frag env e) (hes : FragL env es) (c : Tok) (hc : Closer c) (hc2 : c ≠ .p .comma)
+    (rest : List Tok) (F : Nat) (hF : fuelOf e + fuelOfL es + 8 ≤ F) :
+    pArgs env F (prE e ++ (prTail es ++ c :: rest)) = some (e :: es, c :: rest) := by
+  obtain ⟨f, rfl⟩ : ∃ f, F = f + 1 := ⟨F - 1, by omega⟩
+  have hE : pLevel env f 1 (prE e ++ (prTail es ++ c :: rest)) = some (e, prTail es ++ c :: rest) := by
+    cases es with
+    | nil =>
+      exact level_of_e5 env e _ (fuelOf e) (fun F' hF' => rp_e5 env e he _ (nolp_closer _ _ hc) F' hF') 1 (by omega) (by omega)
+        (follow_closer _ _ _ hc) f (by omega)
+    | cons e2 es2 =>
+      exact level_of_e5 env e _ (fuelOf e) (fun F' hF' => rp_e5 env e he _ (nolp_closer _ _ (Or.inr (Or.inl rfl))) F' hF') 1 (by omega) (by omega)
+        (follow_closer _ _ _ (Or.inr (Or.inl rfl))) f (by omega)
+  have hM := rp_more_c env es hes c hc hc2 rest f (by omega)
+  simp only [pArgs, hE, hM]
+
+/-- the inside of a parenthesised binary operation, read at level 1: `a op b` up to the closing parenthesis -/
+theorem rp_bin_inner (op : BinOp) (hop : op.isInfix = true) (a b : Expr) (ha : Frag env a) (hb : Frag env b) (R : List Tok) (F : Nat)
+    (hF : fuelOf a + fuelOf b + 20 ≤ F) :
+    pLevel env F 1 (prE a ++ op.tok :: (prE b ++ .p .rp :: R)) = some (.bin op a b, .p .rp :: R) := by
+  have hlv := level_range op hop
+  have hA : ∀ F', fuelOf a + 6 ≤ F' →
+      pLevel env F' (op.level + 1) (prE a ++ op.tok :: (prE b ++ .p .rp :: R)) = some (a, op.tok :: (prE b ++ .p .rp :: R)) :=
+    level_of_e5 env a _ (fuelOf a) (fun F' hF' => rp_e5 env a ha _ (nolp_optok op _) F' hF') (op.level + 1) (by omega) (by omega)
+      (follow_tok_of_infix op hop _)
+  have hB : ∀ F', fuelOf b + 6 ≤ F' → pLevel env F' (op.level + 1) (prE b ++ .p .rp :: R) = some (b, .p .rp :: R) :=
+    level_of_e5 env b _ (fuelOf b) (fun F' hF' => rp_e5 env b hb _ (nolp_closer _ _ (Or.inl rfl)) F' hF') (op.level + 1) (by omega) (by omega)
+      (follow_closer _ _ _ (Or.inl rfl))
+  exact read_infix env op hop a b (prE a) (prE b) (.p .rp :: R) (fuelOf a + fuelOf b + 6)
+    (fun F' hF' => hA F' (by omega)) (fun F' hF' => hB F' (by omega)) (follow_closer _ _ _ (Or.inl rfl))
+    (op.level - 1) 1 (by omega) (Nat.le_refl 1) F (by omega)
+
+/-- the statement reader's expression fuel (32 per remaining token) covers every printed expression among those tokens -/
+theorem fuel_le (e : Expr) (h : Frag env e) (n : Nat) (hn : (prE e).length ≤ n) : fuelOf e + 6 ≤ 32 * (n + 2) := by
+  have := fuel_bound env e h
+  omega
+
+theorem fuelL_le (es : List Expr) (h : FragL env es) (n : Nat) (hn : (prTail es).length ≤ n) : fuelOfL es + 8 ≤ 32 * (n + 2) := by
+  have := fuelL_bound env es h
+  omega
+
+theorem fuelArgs_le (e : Expr) (es : List Expr) (he : Frag env e) (hes : FragL env es) (n : Nat)
+    (hn : (prE e).length + (prTail es).length ≤ n) : fuelOf e + fuelOfL es + 8 ≤ 32 * (n + 2) := by
+  have := fuel_bound env e he
+  have := fuelL_bound env es hes
+  omega
+
+/-- heads of printed statements: nothing the statement-list reader stops at or skips -/
+def stmtHead (t : Tok) : Bool :=
+  t != .nl && !t.kw "end" && !t.kw "else" && !t.kw "global" && !t.kw "instance" && !t.kw "property"
+
+theorem pStmts_cons (f : Nat) (t : Tok) (X R' R : List Tok) (s : Stmt) (ss : List Stmt) (ht : stmtHead t = true)
+    (h1 : pStmt env f (t :: X) = some (s, R')) (h2 : pStmts env f R' = some (ss, R)) :
+    pStmts env (f + 1) (t :: X) = some (s :: ss, R) := by
+  simp [stmtHead] at ht
+  obtain ⟨⟨⟨⟨⟨t1, t2⟩, t3⟩, t4⟩, t5⟩, t6⟩ := ht
+  simp [pStmts, t1, t2, t3, t4, t5, t6, h1, h2]
+
+theorem pStmts_stop (f : Nat) (t : Tok) (r : List Tok) (h : (t.kw "end" || t.kw "else") = true) :
+    pStmts env (f + 1) (t :: r) = some ([], t :: r) := by
+  have hn : t ≠ .nl := by intro hh; subst hh; simp [kw_nl] at h
+  simp [pStmts, hn, h]
+
+/-- `f (a op b)` and `f (a op b), c`: the whole-list-parenthesised reading is tried first; it either gives the same call or fails -/
+theorem pStmt_call_paren (f : Nat) (s : Name) (t : Tok) (R r2 rest : List Tok) (e : Expr) (as : List Expr) (hc : cmdName s = true)
+    (hs : (Tok.id s).kw "sound" = false) (hv : env.isVar s = false) (ht : t ≠ .p .rp)
+    (h1 : pArgs env (32 * (R.length + 4)) (t :: R) = some ([e], .p .rp :: r2))
+    (h2 : (r2 = .nl :: rest ∧ as = [e]) ∨ (eos r2 = none ∧ pArgs env (32 * (R.length + 4)) (.p .lp :: t :: R) = some (as, .nl :: rest))) :
+    pStmt env (f + 1) (.id s :: .p .lp :: t :: R) = some (.call s as, rest) := by
+  have c := cmdName_spec s hc
+  have e' : 32 * (R.length + 1 + 1 + 2) = 32 * (R.length + 4) := by omega
+  rcases h2 with ⟨h21, h22⟩ | ⟨h21, h22⟩
+  · subst h21; subst h22
+    cases t with
+    | p x => cases x <;> first | exact absurd rfl ht | simp [pStmt, c, hs, hv, eos, kw_p, e', h1]
+    | _ => simp [pStmt, c, hs, hv, eos, kw_p, e', h1]
+  · cases t with
+    | p x => cases x <;> first | exact absurd rfl ht | simp [pStmt, c, hs, hv, eos_nl, eos_lp, kw_p, e', h1, h21, h22]
+    | _ => simp [pStmt, c, hs, hv, eos_nl, eos_lp, kw_p, e', h1, h21, h22]
+
+/-! ### the statement fragment -/
+
+/-- loop variable: an identifier that the environment resolves (in assignment position) to the tree's node -/
+def VarOk (env : Env) (v : Expr) : Prop := ∃ s, prE v = [.id s] ∧ env.resolveVar s = v
+
+/-- receiver of a method call written as a command `obj mName, args` -/
+def RecvStmtOk (env : Env) (o : Expr) : Prop :=
+  ∃ s, prE o = [.id s] ∧ cmdName s = true ∧ (Tok.id s).kw "sound" = false ∧ env.isVar s = true ∧ env.resolveVar s = o
+
+/-- command calls: `put a, b`; `sound <word> args`; `go loop|next|previous`; any other name that is no statement keyword and no variable -/
+def CallOk (env : Env) (f : Name) (as : List Expr) : Prop :=
+  f = "put".toList
+  ∨ (f = "sound".toList ∧ ∃ m rest, as = .sym m :: rest)
+  ∨ (f = "go".toList ∧ env.isVar f = false ∧ ∃ w, as = [.sym w] ∧ goWord w = true)
+  ∨ (cmdName f = true ∧ (Tok.id f).kw "sound" = false ∧ (Tok.id f).kw "go" = false ∧ env.isVar f = false)
+
+mutual
+/-- the statement fragment of the round-trip theorem: every statement form; expressions in `Frag`, assignment targets in `LvOk`,
+    `put … into` a plain variable excluded (the reader and the decompiler write that as `set`) -/
+def FragS (env : Env) : Stmt → Prop
+  | .set lv v => LvOk env lv ∧ Frag env v
+  | .put md v lv => Frag env v ∧ LvOk env lv ∧ (md = .into → lvKind lv = true)
+  | .delete t => LvOk env t
+  | .hilite t => LvOk env t
+  | .call f as => CallOk env f as ∧ FragL env as
+  | .mcall o _ as => RecvStmtOk env o ∧ FragL env as
+  | .exit => True
+  | .exitRepeat => True
+  | .tell o b => Frag env o ∧ FragSs env b
+  | .ifThen c t e => Frag env c ∧ FragSs env t ∧ FragSs env e
+  | .repeatWhile c b => Frag env c ∧ FragSs env b
+  | .repeatWith v a b _ body => VarOk env v ∧ Frag env a ∧ Frag env b ∧ FragSs env body
+  | .repeatIn v l body => VarOk env v ∧ Frag env l ∧ FragSs env body
+def FragSs (env : Env) : List Stmt → Prop
+  | [] => True
+  | s :: ss => FragS env s ∧ FragSs env ss
+end
+
+mutual
+/-- statement fuel that is certainly enough -/
+def fuelS : Stmt → Nat
+  | .tell _ b => fuelSs b + 1
+  | .ifThen _ t e => fuelSs t + fuelSs e + 1
+  | .repeatWhile _ b => fuelSs b + 1
+  | .repeatWith _ _ _ _ b => fuelSs b + 1
+  | .repeatIn _ _ b => fuelSs b + 1
+  | _ => 1
+def fuelSs : List Stmt → Nat
+  | [] => 1
+  | s :: ss => fuelS s + fuelSs ss + 1
+end
+
+theorem stmtHead_of_cmdName (s : Name) (h : cmdName s = true) : stmtHead (.id s) = true := by
+  have c := cmdName_spec s h
+  simp [stmtHead, c]
+
+theorem lv_fuel (lv : Expr) (h : LvOk env lv) (n : Nat) (hn : (prE lv).length ≤ n) : fuelOf lv ≤ 32 * (n + 2) := by
+  rcases h with ⟨s, _, _, hr⟩ | ⟨_, hf⟩
+  · rw [← hr]
+    unfold Env.resolveVar
+    split
+    · simp [fuelOf]; omega
+    · split
+      · simp [fuelOf]; omega
+      · split
+        · simp [fuelOf]; omega
+        · split <;> simp [fuelOf] <;> omega
+  · have := fuel_bound env lv hf
+    omega
+
+theorem lv_exprHead (lv : Expr) (h : LvOk env lv) : headIs exprHead (prE lv) = true := by
+  rcases h with ⟨s, hs, _⟩ | ⟨_, hf⟩
+  · simp [hs, headIs, exprHead]
+  · exact prE_exprHead env lv hf
+
+theorem eos_of_exprHead (X Y : List Tok) (h : headIs exprHead X = true) : eos (X ++ Y) = none := by
+  cases X with
+  | nil => simp [headIs] at h
+  | cons t X' => cases t <;> simp_all [headIs, exprHead, eos]
+
+theorem ne_of_kw_false (f : Name) (k : String) (h : (Tok.id f).kw k = false) (hk : lowerName k.toList = k.toList) : f ≠ k.toList := by
+  intro hh
+  subst hh
+  simp [Tok.kw, hk] at h
+
+/-- the first token of a printed statement -/
+theorem prS_stmtHead (s : Stmt) (h : FragS env s) : headIs stmtHead (prS s) = true := by
+  cases s with
+  | set lv v => simp [prS, kw, headIs, stmtHead]
+  | put md v lv => simp [prS, kw, headIs, stmtHead]
+  | delete t => simp [prS, kw, headIs, stmtHead]
+  | hilite t => simp [prS, kw, headIs, stmtHead]
+  | exit => simp [prS, kw, headIs, stmtHead]
+  | exitRepeat => simp [prS, kw, headIs, stmtHead]
+  | tell o b => simp [prS, kw, headIs, stmtHead]
+  | ifThen c t e => simp [prS, kw, headIs, stmtHead]
+  | repeatWhile c b => simp [prS, kw, headIs, stmtHead]
+  | repeatWith v a b d body => simp [prS, kw, headIs, stmtHead]
+  | repeatIn v l body => simp [prS, kw, headIs, stmtHead]
+  | mcall o m as =>
+    obtain ⟨⟨s, hs, hc, _⟩, _⟩ : RecvStmtOk env o ∧ FragL env as := h
+    simp [prS, hs, headIs, stmtHead_of_cmdName s hc]
+  | call f as =>
+    obtain ⟨hc, _⟩ : CallOk env f as ∧ FragL env as := h
+    have hh : ∃ X, prCallStmt f as = .id f :: X := by
+      unfold prCallStmt
+      split
+      · split <;> exact ⟨_, rfl⟩
+      · split
+        · split
+          · split <;> exact ⟨_, rfl⟩
+          · exact ⟨_, rfl⟩
+        · exact ⟨_, rfl⟩
+    obtain ⟨X, hX⟩ := hh
+    have hf : stmtHead (.id f) = true := by
+      rcases hc with hc | ⟨hc, _⟩ | ⟨hc, _⟩ | ⟨hc, _⟩
+      · subst hc; decide
+      · subst hc; decide
+      · subst hc; decide
+      · exact stmtHead_of_cmdName f hc
+    simp [prS, hX, headIs, hf]
+
+def Stop (rest : List Tok) : Prop := headIs (fun t => t.kw "end" || t.kw "else") rest = true
+
+theorem prSs_head (ss : List Stmt) (h : FragSs env ss) (rest : List Tok) (hr : Stop rest) :
+    headIs (fun t => t != .nl) (prSs ss ++ rest) = true := by
+  cases ss with
+  | nil =>
+    cases rest with
+    | nil => simp [Stop, headIs] at hr
+    | cons t r =>
+      simp only [prSs, List.nil_append, headIs]
+      simp only [Stop, headIs] at hr
+      cases t <;> simp_all [kw_nl]
+  | cons s ss =>
+    obtain ⟨hs, _⟩ : FragS env s ∧ FragSs env ss := h
+    have := prS_stmtHead env s hs
+    cases hp : prS s with
+    | nil => simp [hp, headIs] at this
+    | cons t X =>
+      simp only [hp, headIs, stmtHead] at this
+      simp only [prSs, hp, List.cons_append, headIs]
+      simp at this ⊢
+      exact this.1.1.1.1.1
+
+theorem skipNl_of_head (X : List Tok) (h : headIs (fun t => t != .nl) X = true) : skipNl X = X := by
+  cases X with
+  | nil => rfl
+  | cons t X' => cases t <;> simp_all [headIs, skipNl]
+
+/-! ### the round trip -/
+
+theorem rp_expr_closer (e : Expr) (h : Frag env e) (c : Tok) (hc : Closer c) (rest : List Tok) (F : Nat) (hF : fuelOf e + 6 ≤ F) :
+    pExpr env F (prE e ++ c :: rest) = some (e, c :: rest) :=
+  level_of_e5 env e _ (fuelOf e) (fun F' hF' => rp_e5 env e h _ (nolp_closer _ _ hc) F' hF') 1 (by omega) (by omega)
+    (follow_closer _ _ _ hc) F hF
+
+/-- only a (fully parenthesised) binary operation is printed with a leading parenthesis -/
+theorem lp_head_is_bin (e : Expr) (h : Frag env e) (X : List Tok) (hp : prE e = .p .lp :: X) :
+    ∃ op a b, e = .bin op a b ∧ op.isInfix = true := by
+  cases e with
+  | bin op a b =>
+    cases hop : op.isInfix with
+    | true => exact ⟨op, a, b, rfl, hop⟩
+    | false => simp [prE, hop, kw] at hp
+  | str s =>
+    by_cases h0 : s = []
+    · simp [prE, strToks, h0] at hp
+    · cases hc : nameOfConstant s <;> simp [prE, strToks, h0, hc] at hp
+  | un op a => cases op <;> simp [prE, kw] at hp
+  | mcall o m as =>
+    obtain ⟨⟨s, hs, _⟩, _⟩ : RecvOk env o ∧ FragL env as := h
+    simp [prE, hs] at hp
+  | plist as => cases as <;> simp [prE] at hp
+  | the t k as =>
+    obtain ⟨Y, hY⟩ := prThe_head t k as
+    simp [prE, hY, kw] at hp
+  | chunk c a b d =>
+    cases b with
+    | int n => cases n <;> simp [prE, kw] at hp
+    | _ => simp [prE, kw] at hp
+  | _ => simp [prE, kw] at hp
+
+/-- the argument list `a op b` closed by the parenthesis that opened before `a` -/
+theorem rp_args_inner (op : BinOp) (hop : op.isInfix = true) (a b : Expr) (ha : Frag env a) (hb : Frag env b) (R : List Tok) (F : Nat)
+    (hF : fuelOf a + fuelOf b + 22 ≤ F) :
+    pArgs env F (prE a ++ op.tok :: (prE b ++ .p .rp :: R)) = some ([.bin op a b], .p .rp :: R) := by
+  obtain ⟨f, rfl⟩ : ∃ f, F = f + 1 := ⟨F - 1, by omega⟩
+  obtain ⟨f', rfl⟩ : ∃ f', f = f' + 1 := ⟨f - 1, by omega⟩
+  have h1 := rp_bin_inner env op hop a b ha hb R (f' + 1) (by omega)
+  simp [pArgs, h1, pMore]
+
+mutual
+/-- the statement reader inverts the statement printer, for every statement form and any nesting depth -/
+theorem rp_stmt : ∀ (s : Stmt), FragS env s → ∀ (rest : List Tok) (F : Nat), fuelS s ≤ F →
+    pStmt env F (prS s ++ rest) = some (s, rest)
+  | .set lv v, h, rest, F, hF => by
+    obtain ⟨hlv, hv⟩ : LvOk env lv ∧ Frag env v := h
+    obtain ⟨f, rfl⟩ : ∃ f, F = f + 1 := ⟨F - 1, by simp [fuelS] at hF; omega⟩
+    have h1 := rp_lvalue env lv hlv (.p .eq :: (prE v ++ .nl :: rest)) (by simp [NoLp])
+      (32 * ((prE lv ++ .p .eq :: (prE v ++ .nl :: rest)).length + 2))
+      (lv_fuel env lv hlv _ (by simp only [List.length_append, List.length_cons]; omega))
+    have h2 := rp_expr_nl env v hv rest (32 * ((prE lv ++ .p .eq :: (prE v ++ .nl :: rest)).length + 2))
+      (fuel_le env v hv _ (by simp only [List.length_append, List.length_cons]; omega))
+    have := pStmt_set env f _ _ rest lv v h1 h2
+    simpa [prS] using this
+  | .put md v lv, h, rest, F, hF => by
+    obtain ⟨hv, hlv, hmd⟩ : Frag env v ∧ LvOk env lv ∧ (md = .into → lvKind lv = true) := h
+    obtain ⟨f, rfl⟩ : ∃ f, F = f + 1 := ⟨F - 1, by simp [fuelS] at hF; omega⟩
+    have hX : eos (prE v ++ kw md.tag :: (prE lv ++ .nl :: rest)) = none := eos_of_exprHead (prE v) _ (prE_exprHead env v hv)
+    have hw : WordTok (kw md.tag) := by cases md <;> exact wordTok_kw _ (by decide)
+    have h1 := rp_expr_word env v hv (kw md.tag) hw (prE lv ++ .nl :: rest)
+      (32 * ((prE v ++ kw md.tag :: (prE lv ++ .nl :: rest)).length + 2))
+      (fuel_le env v hv _ (by simp only [List.length_append, List.length_cons]; omega))
+    have h2 := rp_lvalue env lv hlv (.nl :: rest) (by simp [NoLp])
+      (32 * ((prE v ++ kw md.tag :: (prE lv ++ .nl :: rest)).length + 2))
+      (lv_fuel env lv hlv _ (by simp only [List.length_append, List.length_cons]; omega))
+    have := pStmt_put env f md _ _ rest lv v hX h1 h2 hmd
+    simpa [prS] using this
+  | .delete t, h, rest, F, hF => by
+    have hlv : LvOk env t := h
+    obtain ⟨f, rfl⟩ : ∃ f, F = f + 1 := ⟨F - 1, by simp [fuelS] at hF; omega⟩
+    have h1 := rp_lvalue env t hlv (.nl :: rest) (by simp [NoLp]) (32 * ((prE t ++ .nl :: rest).length + 2))
+      (lv_fuel env t hlv _ (by simp only [List.length_append, List.length_cons]; omega))
+    have := pStmt_delete env f _ rest t h1
+    simpa [prS] using this
+  | .hilite t, h, rest, F, hF => by
+    have hlv : LvOk env t := h
+    obtain ⟨f, rfl⟩ : ∃ f, F = f + 1 := ⟨F - 1, by simp [fuelS] at hF; omega⟩
+    have h1 := rp_lvalue env t hlv (.nl :: rest) (by simp [NoLp]) (32 * ((prE t ++ .nl :: rest).length + 2))
+      (lv_fuel env t hlv _ (by simp only [List.length_append, List.length_cons]; omega))
+    have := pStmt_hilite env f _ rest t h1
+    simpa [prS] using this
+  | .exit, _, rest, F, hF => by
+    obtain ⟨f, rfl⟩ : ∃ f, F = f + 1 := ⟨F - 1, by simp [fuelS] at hF; omega⟩
+    simpa [prS] using pStmt_exit env f rest
+  | .exitRepeat, _, rest, F, hF => by
+    obtain ⟨f, rfl⟩ : ∃ f, F = f + 1 := ⟨F - 1, by simp [fuelS] at hF; omega⟩
+    simpa [prS] using pStmt_exitRepeat env f rest
+  | .mcall o m as, h, rest, F, hF => by
+    obtain ⟨⟨s, hs, hc, hsd, hv, hr⟩, has⟩ : RecvStmtOk env o ∧ FragL env as := h
+    obtain ⟨f, rfl⟩ : ∃ f, F = f + 1 := ⟨F - 1, by simp [fuelS] at hF; omega⟩
+    cases as with
+    | nil =>
+      have := pStmt_mcall0 env f s m rest hc hsd hv
+      rw [hr] at this
+      simpa [prS, hs, prTail] using this
+    | cons e es =>
+      obtain ⟨he, hes⟩ : Frag env e ∧ FragL env es := has
+      have h1 := rp_args_c env e es he hes .nl (by simp [Closer]) (by simp) rest
+        (32 * ((prE e ++ (prTail es ++ .nl :: rest)).length + 4))
+        (by have := fuelArgs_le env e es he hes (prE e ++ (prTail es ++ .nl :: rest)).length
+              (by simp only [List.length_append, List.length_cons]; omega)
+            omega)
+      have := pStmt_mcall env f s m _ rest (e :: es) hc hsd hv h1
+      rw [hr] at this
+      simpa [prS, hs, prTail] using this
+  | .call fn as, h, rest, F, hF => by
+    obtain ⟨hc, has⟩ : CallOk env fn as ∧ FragL env as := h
+    obtain ⟨f, rfl⟩ : ∃ f, F = f + 1 := ⟨F - 1, by simp [fuelS] at hF; omega⟩
+    rcases hc with hc | ⟨hc, m, as', has'⟩ | ⟨hc, hv, w, has', hw⟩ | ⟨hc, hsd, hgo, hv⟩
+    · -- put
+      subst hc
+      cases as with
+      | nil => simpa [prS, prCallStmt, prArgs, kw] using pStmt_put0 env f rest
+      | cons e es =>
+        obtain ⟨he, hes⟩ : Frag env e ∧ FragL env es := has
+        have hX : eos (prE e ++ (prTail es ++ .nl :: rest)) = none := eos_of_exprHead (prE e) _ (prE_exprHead env e he)
+        have hfe := fuel_le env e he (prE e ++ (prTail es ++ .nl :: rest)).length (by simp only [List.length_append]; omega)
+        have h2 := rp_more_c env es hes .nl (by simp [Closer]) (by simp) rest (32 * ((prE e ++ (prTail es ++ .nl :: rest)).length + 2))
+          (by have := fuelL_le env es hes (prE e ++ (prTail es ++ .nl :: rest)).length
+                (by simp only [List.length_append]; omega)
+              omega)
+        cases es with
+        | nil =>
+          have h1 := rp_expr_nl env e he rest (32 * ((prE e ++ (prTail [] ++ .nl :: rest)).length + 2)) hfe
+          have := pStmt_putCall env f _ _ rest .nl e [] hX (by simpa [prTail] using h1) (by simp [kw_nl]) (by simpa [prTail] using h2)
+          simpa [prS, prCallStmt, prArgs, prTail, kw] using this
+        | cons e2 es2 =>
+          have h1 := rp_expr_closer env e he (.p .comma) (by simp [Closer]) (prE e2 ++ (prTail es2 ++ .nl :: rest))
+            (32 * ((prE e ++ (prTail (e2 :: es2) ++ .nl :: rest)).length + 2)) hfe
+          have := pStmt_putCall env f _ _ rest (.p .comma) e (e2 :: es2) hX (by simpa [prTail] using h1) (by simp [kw_p])
+            (by simpa [prTail] using h2)
+          simpa [prS, prCallStmt, prArgs_cons, prTail, kw] using this
+    · -- sound
+      subst hc; subst has'
+      obtain ⟨_, has2⟩ : Frag env (.sym m) ∧ FragL env as' := has
+      cases as' with
+      | nil => simpa [prS, prCallStmt, prArgs, kw] using pStmt_sound0 env f m rest
+      | cons e es =>
+        obtain ⟨he, hes⟩ : Frag env e ∧ FragL env es := has2
+        have hX : eos (prE e ++ (prTail es ++ .nl :: rest)) = none := eos_of_exprHead (prE e) _ (prE_exprHead env e he)
+        have h1 := rp_args_c env e es he hes .nl (by simp [Closer]) (by simp) rest
+          (32 * ((prE e ++ (prTail es ++ .nl :: rest)).length + 3))
+          (by have := fuelArgs_le env e es he hes (prE e ++ (prTail es ++ .nl :: rest)).length
+                (by simp only [List.length_append, List.length_cons]; omega)
+              omega)
+        have := pStmt_sound env f m _ rest (e :: es) hX h1
+        simpa [prS, prCallStmt, prArgs_cons, kw] using this
+    · -- go loop / next / previous
+      subst hc; subst has'
+      have := pStmt_go env f w rest hw hv
+      simpa [prS, prCallStmt, hw, kw] using this
+    · -- any other command
+      have hne1 : fn ≠ ['s','o','u','n','d'] := ne_of_kw_false fn "sound" hsd (by decide)
+      have hne2 : fn ≠ ['g','o'] := ne_of_kw_false fn "go" hgo (by decide)
+      have hpr : prCallStmt fn as = .id fn :: prArgs as := by simp [prCallStmt, hne1, hne2]
+      cases as with
+      | nil => simpa [prS, hpr, prArgs] using pStmt_call0 env f fn rest hc hsd hv
+      | cons e es =>
+        obtain ⟨he, hes⟩ : Frag env e ∧ FragL env es := has
+        have hhead := prE_exprHead env e he
+        cases hpe : prE e with
+        | nil => simp [hpe, headIs] at hhead
+        | cons t X =>
+          rw [hpe] at hhead
+          by_cases hlp : t = .p .lp
+          · -- `f (a op b) …`
+            subst hlp
+            obtain ⟨op, a, b, rfl, hop⟩ := lp_head_is_bin env e he X hpe
+            obtain ⟨ha, hb⟩ : Frag env a ∧ Frag env b := he
+            have hX : X = prE a ++ op.tok :: (prE b ++ [.p .rp]) := by
+              simp [prE, hop] at hpe; exact hpe.symm
+            have hha := prE_head env a ha
+            cases hpa : prE a with
+            | nil => simp [hpa, HeadNotRp] at hha
+            | cons ta A =>
+              rw [hpa] at hha
+              have hfa := fuel_bound env a ha
+              have hfb := fuel_bound env b hb
+              have hfes := fuelL_bound env es hes
+              rw [hpa] at hfa
+              have h1 := rp_args_inner env op hop a b ha hb (prTail es ++ .nl :: rest)
+                (32 * ((A ++ op.tok :: (prE b ++ .p .rp :: (prTail es ++ .nl :: rest))).length + 4))
+                (by simp only [List.length_append, List.length_cons] at hfa ⊢; omega)
+              rw [hpa] at h1
+              have hfull := rp_args_c env (.bin op a b) es ⟨ha, hb⟩ hes .nl (by simp [Closer]) (by simp) rest
+                (32 * ((A ++ op.tok :: (prE b ++ .p .rp :: (prTail es ++ .nl :: rest))).length + 4))
+                (by simp only [List.length_append, List.length_cons, fuelOf] at hfa ⊢; omega)
+              have h2 : (prTail es ++ .nl :: rest = .nl :: rest ∧ (.bin op a b :: es) = [.bin op a b]) ∨
+                  (eos (prTail es ++ .nl :: rest) = none ∧
+                    pArgs env (32 * ((A ++ op.tok :: (prE b ++ .p .rp :: (prTail es ++ .nl :: rest))).length + 4))
+                      (.p .lp :: ta :: (A ++ op.tok :: (prE b ++ .p .rp :: (prTail es ++ .nl :: rest)))) = some (.bin op a b :: es, .nl :: rest)) := by
+                cases es with
+                | nil => exact Or.inl ⟨by simp [prTail], rfl⟩
+                | cons e2 es2 =>
+                  refine Or.inr ⟨by simp [prTail, eos], ?_⟩
+                  simpa [prE, hop, hpa] using hfull
+              have := pStmt_call_paren env f fn ta _ _ rest (.bin op a b) (.bin op a b :: es) hc hsd hv hha.1
+                (by simpa using h1) h2
+              simpa [prS, hpr, prArgs_cons, prE, hop, hpa] using this
+          · have h1 := rp_args_c env e es he hes .nl (by simp [Closer]) (by simp) rest
+              (32 * ((X ++ (prTail es ++ .nl :: rest)).length + 3))
+              (by have := fuelArgs_le env e es he hes ((X ++ (prTail es ++ .nl :: rest)).length + 1)
+                    (by rw [hpe]; simp only [List.length_append, List.length_cons]; omega)
+                  omega)
+            rw [hpe] at h1
+            have htn : t ≠ .nl := by intro hh; subst hh; simp [headIs, exprHead] at hhead
+            have := pStmt_call env f fn t (X ++ (prTail es ++ .nl :: rest)) rest (e :: es) hc hsd hv htn hlp (Or.inl hgo)
+              (by simpa using h1)
+            simpa [prS, hpr, prArgs_cons, hpe] using this
+  | .tell o b, h, rest, F, hF => by
+    obtain ⟨ho, hb⟩ : Frag env o ∧ FragSs env b := h
+    obtain ⟨f, rfl⟩ : ∃ f, F = f + 1 := ⟨F - 1, by simp [fuelS] at hF; omega⟩
+    have h1 := rp_expr_nl env o ho (prSs b ++ kw "end" :: kw "tell" :: .nl :: rest)
+      (32 * ((prE o ++ .nl :: (prSs b ++ kw "end" :: kw "tell" :: .nl :: rest)).length + 2))
+      (fuel_le env o ho _ (by simp only [List.length_append, List.length_cons]; omega))
+    have h2 := rp_stmts b hb (kw "end" :: kw "tell" :: .nl :: rest) (by simp [Stop, headIs, kw]) f (by simp [fuelS] at hF; omega)
+    have := pStmt_tell env f _ _ rest o b h1 h2
+    simpa [prS] using this
+  | .ifThen c t e, h, rest, F, hF => by
+    obtain ⟨hc, ht, he⟩ : Frag env c ∧ FragSs env t ∧ FragSs env e := h
+    obtain ⟨f, rfl⟩ : ∃ f, F = f + 1 := ⟨F - 1, by simp [fuelS] at hF; omega⟩
+    have hw : WordTok (kw "then") := wordTok_kw _ (by decide)
+    cases e with
+    | nil =>
+      have h1 := rp_expr_word env c hc (kw "then") hw (.nl :: (prSs t ++ kw "end" :: kw "if" :: .nl :: rest))
+        (32 * ((prE c ++ kw "then" :: .nl :: (prSs t ++ kw "end" :: kw "if" :: .nl :: rest)).length + 2))
+        (fuel_le env c hc _ (by simp only [List.length_append, List.length_cons]; omega))
+      have h2 := rp_stmts t ht (kw "end" :: kw "if" :: .nl :: rest) (by simp [Stop, headIs, kw]) f (by simp [fuelS] at hF; omega)
+      have := pStmt_if env f _ _ rest c t h1 h2
+      simpa [prS] using this
+    | cons e1 es =>
+      have h1 := rp_expr_word env c hc (kw "then") hw
+        (.nl :: (prSs t ++ kw "else" :: .nl :: (prSs (e1 :: es) ++ kw "end" :: kw "if" :: .nl :: rest)))
+        (32 * ((prE c ++ kw "then" :: .nl :: (prSs t ++ kw "else" :: .nl :: (prSs (e1 :: es) ++ kw "end" :: kw "if" :: .nl :: rest))).length + 2))
+        (fuel_le env c hc _ (by simp only [List.length_append, List.length_cons]; omega))
+      have h2 := rp_stmts t ht (kw "else" :: .nl :: (prSs (e1 :: es) ++ kw "end" :: kw "if" :: .nl :: rest))
+        (by simp [Stop, headIs, kw]) f (by simp [fuelS] at hF; omega)
+      have h3 := skipNl_of_head _ (prSs_head env (e1 :: es) he (kw "end" :: kw "if" :: .nl :: rest) (by simp [Stop, headIs, kw]))
+      have h4 := rp_stmts (e1 :: es) he (kw "end" :: kw "if" :: .nl :: rest) (by simp [Stop, headIs, kw]) f (by simp [fuelS] at hF; omega)
+      have := pStmt_ifElse env f _ _ _ rest c t (e1 :: es) h1 h2 h3 h4
+      simpa [prS] using this
+  | .repeatWhile c b, h, rest, F, hF => by
+    obtain ⟨hc, hb⟩ : Frag env c ∧ FragSs env b := h
+    obtain ⟨f, rfl⟩ : ∃ f, F = f + 1 := ⟨F - 1, by simp [fuelS] at hF; omega⟩
+    have h1 := rp_expr_nl env c hc (prSs b ++ kw "end" :: kw "repeat" :: .nl :: rest)
+      (32 * ((prE c ++ .nl :: (prSs b ++ kw "end" :: kw "repeat" :: .nl :: rest)).length + 3))
+      (by have := fuel_le env c hc (prE c ++ .nl :: (prSs b ++ kw "end" :: kw "repeat" :: .nl :: rest)).length
+            (by simp only [List.length_append, List.length_cons]; omega)
+          omega)
+    have h2 := rp_stmts b hb (kw "end" :: kw "repeat" :: .nl :: rest) (by simp [Stop, headIs, kw]) f (by simp [fuelS] at hF; omega)
+    have := pStmt_while env f _ _ rest c b h1 h2
+    simpa [prS] using this
+  | .repeatWith v a b down body, h, rest, F, hF => by
+    obtain ⟨⟨s, hs, hr⟩, ha, hb, hbody⟩ : VarOk env v ∧ Frag env a ∧ Frag env b ∧ FragSs env body := h
+    obtain ⟨f, rfl⟩ : ∃ f, F = f + 1 := ⟨F - 1, by simp [fuelS] at hF; omega⟩
+    have h3 := rp_stmts body hbody (kw "end" :: kw "repeat" :: .nl :: rest) (by simp [Stop, headIs, kw]) f (by simp [fuelS] at hF; omega)
+    cases down with
+    | false =>
+      have hw : WordTok (kw "to") := wordTok_kw _ (by decide)
+      have h1 := rp_expr_word env a ha (kw "to") hw (prE b ++ .nl :: (prSs body ++ kw "end" :: kw "repeat" :: .nl :: rest))
+        (32 * ((prE a ++ kw "to" :: (prE b ++ .nl :: (prSs body ++ kw "end" :: kw "repeat" :: .nl :: rest))).length + 5))
+        (by have := fuel_le env a ha (prE a ++ kw "to" :: (prE b ++ .nl :: (prSs body ++ kw "end" :: kw "repeat" :: .nl :: rest))).length
+              (by simp only [List.length_append, List.length_cons]; omega)
+            omega)
+      have h2 := rp_expr_nl env b hb (prSs body ++ kw "end" :: kw "repeat" :: .nl :: rest)
+        (32 * ((prE a ++ kw "to" :: (prE b ++ .nl :: (prSs body ++ kw "end" :: kw "repeat" :: .nl :: rest))).length + 5))
+        (by have := fuel_le env b hb (prE a ++ kw "to" :: (prE b ++ .nl :: (prSs body ++ kw "end" :: kw "repeat" :: .nl :: rest))).length
+              (by simp only [List.length_append, List.length_cons]; omega)
+            omega)
+      have := pStmt_withUp env f s _ _ _ rest a b body h1 h2 h3
+      rw [hr] at this
+      simpa [prS, hs] using this
+    | true =>
+      have hw : WordTok (kw "down") := wordTok_kw _ (by decide)
+      have h1 := rp_expr_word env a ha (kw "down") hw (kw "to" :: (prE b ++ .nl :: (prSs body ++ kw "end" :: kw "repeat" :: .nl :: rest)))
+        (32 * ((prE a ++ kw "down" :: kw "to" :: (prE b ++ .nl :: (prSs body ++ kw "end" :: kw "repeat" :: .nl :: rest))).length + 5))
+        (by have := fuel_le env a ha (prE a ++ kw "down" :: kw "to" :: (prE b ++ .nl :: (prSs body ++ kw "end" :: kw "repeat" :: .nl :: rest))).length
+              (by simp only [List.length_append, List.length_cons]; omega)
+            omega)
+      have h2 := rp_expr_nl env b hb (prSs body ++ kw "end" :: kw "repeat" :: .nl :: rest)
+        (32 * ((prE a ++ kw "down" :: kw "to" :: (prE b ++ .nl :: (prSs body ++ kw "end" :: kw "repeat" :: .nl :: rest))).length + 5))
+        (by have := fuel_le env b hb (prE a ++ kw "down" :: kw "to" :: (prE b ++ .nl :: (prSs body ++ kw "end" :: kw "repeat" :: .nl :: rest))).length
+              (by simp only [List.length_append, List.length_cons]; omega)
+            omega)
+      have := pStmt_withDown env f s _ _ _ rest a b body h1 h2 h3
+      rw [hr] at this
+      simpa [prS, hs] using this
+  | .repeatIn v l body, h, rest, F, hF => by
+    obtain ⟨⟨s, hs, hr⟩, hl, hbody⟩ : VarOk env v ∧ Frag env l ∧ FragSs env body := h
+    obtain ⟨f, rfl⟩ : ∃ f, F = f + 1 := ⟨F - 1, by simp [fuelS] at hF; omega⟩
+    have h2 := rp_stmts body hbody (kw "end" :: kw "repeat" :: .nl :: rest) (by simp [Stop, headIs, kw]) f (by simp [fuelS] at hF; omega)
+    have h1 := rp_expr_nl env l hl (prSs body ++ kw "end" :: kw "repeat" :: .nl :: rest)
+      (32 * ((prE l ++ .nl :: (prSs body ++ kw "end" :: kw "repeat" :: .nl :: rest)).length + 5))
+      (by have := fuel_le env l hl (prE l ++ .nl :: (prSs body ++ kw "end" :: kw "repeat" :: .nl :: rest)).length
+            (by simp only [List.length_append, List.length_cons]; omega)
+          omega)
+    have := pStmt_in env f s _ _ rest l body h1 h2
+    rw [hr] at this
+    simpa [prS, hs] using this
+/-- … and so does the statement-list reader, up to the `end` / `else` that closes the list -/
+theorem rp_stmts : ∀ (ss : List Stmt), FragSs env ss → ∀ (rest : List Tok), Stop rest → ∀ (F : Nat), fuelSs ss ≤ F →
+    pStmts env F (prSs ss ++ rest) = some (ss, rest)
+  | [], _, rest, hr, F, hF => by
+    obtain ⟨f, rfl⟩ : ∃ f, F = f + 1 := ⟨F - 1, by simp [fuelSs] at hF; omega⟩
+    cases rest with
+    | nil => simp [Stop, headIs] at hr
+    | cons t r => simpa [prSs] using pStmts_stop env f t r (by simpa [Stop, headIs] using hr)
+  | s :: ss, h, rest, hr, F, hF => by
+    obtain ⟨hs, hss⟩ : FragS env s ∧ FragSs env ss := h
+    obtain ⟨f, rfl⟩ : ∃ f, F = f + 1 := ⟨F - 1, by simp [fuelSs] at hF; omega⟩
+    have hhead := prS_stmtHead env s hs
+    have h1 := rp_stmt s hs (prSs ss ++ rest) f (by simp [fuelSs] at hF; omega)
+    have h2 := rp_stmts ss hss rest hr f (by simp [fuelSs] at hF; omega)
+    cases hp : prS s with
+    | nil => simp [hp, headIs] at hhead
+    | cons t X =>
+      rw [hp] at h1 hhead
+      have := pStmts_cons env f t (X ++ (prSs ss ++ rest)) _ rest s ss (by simpa [headIs] using hhead) (by simpa using h1) h2
+      simpa [prSs, hp] using this
+end
 
 end Drx.Spec
